@@ -380,7 +380,6 @@ def subStep (src : Bytes) (total : Nat) : Outcome (Bytes × UInt8 × Nat) :=
   (sliceFrom src total).bind fun rest =>
   if rest.length < 1 then .err else
   (index src total).bind fun q =>
-  if !validQos q.toNat then .err else
   .ok (lp.1, q, lp.2)
 
 /-- `for remlen > 0 { … }` of `SubscribeMessage.Decode` -/
@@ -489,12 +488,14 @@ def decodeConnectMessage (c : ConnectF) (src : Bytes) (base : Nat) : Outcome (Co
    else .ok (c, ((0, 0) : View), ((0, 0) : View), total)).bind fun w =>
   let c := w.1
   let total := w.2.2.2
-  (if c.usernameFlag then
+  (sliceFrom src total).bind fun rest =>
+  (if c.usernameFlag && rest.length > 0 then
     (readField src total).bind fun f => .ok ({ c with username := f.1 }, ((base + f.2.1.1, f.2.1.2) : View), f.2.2)
    else .ok (c, ((0, 0) : View), total)).bind fun u =>
   let c := u.1
   let total := u.2.2
-  (if c.passwordFlag then
+  (sliceFrom src total).bind fun rest =>
+  (if c.passwordFlag && rest.length > 0 then
     (readField src total).bind fun f => .ok ({ c with password := f.1 }, ((base + f.2.1.1, f.2.1.2) : View), f.2.2)
    else .ok (c, ((0, 0) : View), total)).bind fun p =>
   .ok (p.1, p.2.2, [vCid, w.2.1, w.2.2.1, u.2.1, p.2.1])
@@ -555,7 +556,7 @@ def Msg.msglen : Msg → Nat
 /-- `m.Len()` -/
 def Msg.len (m : Msg) : Nat :=
   match m with
-  | .bare h => hdrLen h.remlen
+  | .bare h => if !h.dirty then h.dbuf.length else hdrLen h.remlen
   | _ =>
     if !m.hdr.dirty then m.hdr.dbuf.length
     else if m.msglen > maxRemainingLength then 0
